@@ -53,6 +53,12 @@ def classify(atom):
                 if isinstance(x, Sym) and x.kind == "binop" and x.args[0] == "Mod" and isinstance(y, int) and not isinstance(y, bool):
                     return "mod", {"op": op, "value": x.args[1], "modulus": x.args[2], "residue": y}
             for x, y in ((a, b), (b, a)):
+                # a string function of the package that returns the remainder itself (the number is never built): `mod97(text) != 1`
+                if _is_text_call(x) and isinstance(y, int) and not isinstance(y, bool) and _FACTS[0] is not None:
+                    mod = residue_modulus(x.args[0])
+                    if mod:
+                        return "mod", {"op": op, "value": x, "modulus": mod, "residue": y}
+            for x, y in ((a, b), (b, a)):
                 if isinstance(y, SStr) and isinstance(x, Sym) and _find(x, lambda s: isinstance(s, Sym) and s.kind == "format"):
                     return "recomp", {"op": op, "computed": x, "given": y}
     return "other", {}
@@ -81,6 +87,7 @@ _KINDS = {}
 def set_facts(facts):
     _FACTS[0] = facts
     _KINDS.clear()
+    _RESIDUE.clear()
 
 
 def _is_text_call(s):
@@ -119,6 +126,36 @@ def call_kind(qual):
     return _KINDS[qual]
 
 
+_REF = {c: i for i, c in enumerate("0123456789ABCDEFGHIJKLMNOPQRSTUVWXYZ")}
+_RESIDUE = {}
+_SHORT_PROBES = ["10", "A0", "0A", "AZ", "ZA", "1A2B", "Z9Z", "00A", "B1C2D3", "9Z8Y7X", "99", "ZZZ", "7Q4", "123456789"]
+
+
+def expansion_ref(text):
+    return int("".join(str(_REF[c]) for c in text))
+
+
+def residue_modulus(qual):
+    """M > 1 when the opaque string function ``qual`` returns (letter expansion of its text) mod M on the short probes - it hands out the
+    remainder, not the number; None when it returns the number (or its digit string) or something else.  Established by evaluating the
+    function on concrete strings; that it does so on long texts too is checked by rule_numerify."""
+    if qual not in _RESIDUE:
+        from math import gcd
+        g = 0
+        vals = []
+        ok = True
+        for t in _SHORT_PROBES:
+            o = call_concrete(_FACTS[0], qual, t)
+            v = o.value if o.kind == "return" else None
+            if isinstance(v, bool) or not isinstance(v, int):
+                ok = False
+                break
+            vals.append((t, v))
+            g = gcd(g, expansion_ref(t) - v)
+        _RESIDUE[qual] = g if ok and g > 1 and all(0 <= v < g and v == expansion_ref(t) % g for t, v in vals) else None
+    return _RESIDUE[qual]
+
+
 def eval_sym(expr, numerify_value):
     """Evaluate an opaque arithmetic / formatting term with the number the expansion call stands for := numerify_value."""
     if isinstance(expr, (int, str)) and not isinstance(expr, Sym):
@@ -126,6 +163,13 @@ def eval_sym(expr, numerify_value):
     if isinstance(expr, Sym):
         k = expr.kind
         if _is_text_call(expr):
+            mod = residue_modulus(expr.args[0]) if call_kind(expr.args[0]) == "int" else None
+            suffix = const_digit_suffix(numerify_arg(expr))
+            if suffix:
+                # digits appended to the text before the expansion ("...00"): the call stands for N * 10^k + suffix
+                numerify_value = numerify_value * 10 ** len(suffix) + int(suffix)
+            if mod:
+                return numerify_value % mod
             return numerify_value if call_kind(expr.args[0]) == "int" else str(numerify_value)
         if k == "binop":
             op, a, b = expr.args
@@ -159,6 +203,15 @@ def numerify_arg(expr):
     return arg
 
 
+def const_digit_suffix(arg):
+    """ASCII digits appended as a constant to the symbolic text an expansion call is applied to ('' if none)."""
+    t = arg.term if isinstance(arg, SStr) else None
+    if t and t[0] == "concat" and len(t) > 2 and isinstance(t[-1], tuple) and t[-1][0] == "const" and isinstance(t[-1][1], str) \
+            and t[-1][1].isdigit() and t[-1][1].isascii():
+        return t[-1][1]
+    return ""
+
+
 def term_segments(term):
     """SStr term -> list of (start, stop) slices of S it concatenates, or None."""
     if term[0] == "S":
@@ -167,7 +220,10 @@ def term_segments(term):
         return [(term[2] or 0, term[3])]
     if term[0] == "concat":
         out = []
-        for t in term[1:]:
+        parts = term[1:]
+        if len(parts) > 1 and isinstance(parts[-1], tuple) and parts[-1][0] == "const" and isinstance(parts[-1][1], str) and parts[-1][1].isdigit() and parts[-1][1].isascii():
+            parts = parts[:-1]     # constant digits appended to the text: accounted for by eval_sym (const_digit_suffix)
+        for t in parts:
             s = term_segments(t)
             if s is None:
                 return None
